@@ -18,7 +18,7 @@ def build_system(model, explicit_state=True):
     return rdsystem_from_dict(json.loads(json.dumps(model.strengths_dict(explicit_state))))
 
 
-def record_run(lib, model, kind, seed, max_iter, dt=0.05, isp="auto"):
+def record_run(lib, model, kind, seed, max_iter, dt=0.05, isp="auto", cap=1e3):
     """Runs the engine with policy on_iteration; returns the trace dict for Trace_RDStep."""
     system = build_system(model)
     script = RDScript(system=system, t_sample=[0], t_max=-1.0, time_step=dt, sampling_policy="on_iteration",
@@ -31,8 +31,8 @@ def record_run(lib, model, kind, seed, max_iter, dt=0.05, isp="auto"):
     while unfinished and it < max_iter:
         unfinished = eng.iterate()
         it += 1
-        if it % 8 == 0 and float(np.max(np.abs(engine_rec.raw_state(lib, size)))) > 1e6:
-            break       # exploding population: event counts are C ints, stay far away from their range
+        if cap is not None and float(np.max(np.abs(engine_rec.raw_state(lib, size)))) > cap:
+            break       # exploding population: per-step event counts are C ints (propensities grow like x^order); stay far away from their range
     traj = engine_rec.raw_traj(lib, size)
     ts = engine_rec.raw_tsample(lib)
     eng.finalize()
